@@ -112,6 +112,10 @@ const stdReason = "context canceled"
 
 // newEnv builds a state; withCtx attaches the counting context firing at poll k (0: never).
 func newEnv(withCtx bool, k int, customReason string) *env {
+	return newEnvX(withCtx, k, customReason, false)
+}
+
+func newEnvX(withCtx bool, k int, customReason string, removeCtx bool) *env {
 	e := &env{wrapped: map[*lua.LState]bool{}}
 	L := lua.NewState()
 	e.L = L
@@ -148,6 +152,14 @@ func newEnv(withCtx bool, k int, customReason string) *env {
 			e.root.reason = reasonErr(customReason)
 		}
 		L.SetContext(e.root)
+	}
+	if withCtx && removeCtx {
+		// the context is detached again and then cancelled: the state must behave like one that never had it
+		if got := L.RemoveContext(); got != context.Context(e.root) {
+			e.noInherit++
+		}
+		cancel0 := e.c.cancel
+		cancel0()
 	}
 	// coroutine.create / coroutine.wrap: call the real builtin, then give the new thread's own
 	// (child) context the counting wrapper.
@@ -278,12 +290,42 @@ func outcome(err error, reason string) (int, string) {
 }
 
 // runScript runs src to completion in a goroutine of its own (reference runs end it with Goexit).
-func (e *env) runScript(src string) (err error, exited bool) {
+// mode: "" DoString; "pcall" LoadString + CallByParam(Protect); "resume" the chunk is the body of a
+// thread made by L.NewThread and driven by L.Resume until it is dead.
+func (e *env) runScript(src, mode string) (err error, exited bool) {
 	done := make(chan struct{})
 	exited = true
 	go func() {
 		defer close(done)
-		err = e.L.DoString(src)
+		switch mode {
+		case "pcall":
+			fn, lerr := e.L.LoadString(src)
+			if lerr != nil {
+				err = lerr
+			} else {
+				err = e.L.CallByParam(lua.P{Fn: fn, NRet: lua.MultRet, Protect: true})
+			}
+		case "resume":
+			fn, lerr := e.L.LoadString(src)
+			if lerr != nil {
+				err = lerr
+				break
+			}
+			th, _ := e.L.NewThread()
+			e.adopt(e.L, th, false)
+			for i := 0; ; i++ {
+				st, rerr, _ := e.L.Resume(th, fn, lua.LNumber(i))
+				if st == lua.ResumeError {
+					err = rerr
+					break
+				}
+				if st == lua.ResumeOK {
+					break
+				}
+			}
+		default:
+			err = e.L.DoString(src)
+		}
 		exited = false
 	}()
 	<-done
